@@ -14,7 +14,10 @@ class Check(EngineCheck):
                 "LLBuild.Refine.refinement_final", "LLBuild.Refine.EngineImpl_sound_C05_quiescent", "LLBuild.Refine.EngineImpl_sound_C01",
                 # no hang: every build of the transliterated engine returns (potential-function termination proof), any schedule, any cancellation point
                 "LLBuild.Refine.build_terminates", "LLBuild.Refine.EngineImpl_terminates", "LLBuild.Refine.refinement_final_sized",
-                "LLBuild.Refine.EngineImpl_sound_C05_quiescent_sized", "LLBuild.Refine.EngineImpl_sound_C01_sized"]
+                "LLBuild.Refine.EngineImpl_sound_C05_quiescent_sized", "LLBuild.Refine.EngineImpl_sound_C01_sized",
+                # cancellation arriving from any thread at any item boundary
+                "LLBuild.Refine.build_terminates_async", "LLBuild.Refine.EngineImpl_terminates_async",
+                "LLBuild.Refine.EngineImpl_sound_C05_quiescent_async", "LLBuild.Refine.EngineImpl_sound_C01_async"]
     mix = [(0.6, {"cancel": True}), (0.15, {"cancel": True, "threads": True}), (0.15, {"cancel": True, "cyclic": True}), (0.1, {"foreign_cancel": True})]
     budget = (350, 3500)
     assumptions = EngineCheck.assumptions + [
